@@ -264,6 +264,19 @@ def main():
         if pr.get("bad_axioms"):
             pr["failed"] = (pr["failed"] or "") + " non-allow-listed axioms: " + ", ".join(pr["bad_axioms"])
 
+    # 2b. thorough: independent re-check of the compiled property file and everything it depends on
+    if tier == "thorough" and not replay_path and not pr.get("failed"):
+        modname = "PV." + mod.PROPS[:-2].replace("/", ".")
+        rc, out = sh("timeout 2400 coqchk -silent -o -Q . PV %s 2>&1 | tail -n 400" % modname, 2500, COQ)
+        ok = ("Modules were successfully checked" in out) or (rc == 0 and "Axioms" in out)
+        ax = re.findall(r"^\s{4}(\S+)\s*$", out, re.M)
+        pr["coqchk"] = {"ok": bool(ok), "axioms": sorted(set(ax)),
+                        "type_in_type": "type-in-type: <none>" in out, "unsafe_fix": "unsafe (co)fixpoints: <none>" in out,
+                        "positivity": "positivity is assumed: <none>" in out}
+        if not ok or not (pr["coqchk"]["type_in_type"] and pr["coqchk"]["unsafe_fix"] and pr["coqchk"]["positivity"]) \
+           or any(a.startswith("PV.") for a in ax):
+            pr["failed"] = "coqchk did not accept %s: %s" % (modname, out[-600:])
+
     # 3. correspondence
     rng = random.Random("%s/%s/%d" % (pid, tier, seed))
     known = load_known(pid)
@@ -408,7 +421,7 @@ def main():
                            "theorems": pr.get("theorems", []),
                            "checker_cmd": "cd /verif/coq && make -f Makefile.coq %s && coqc -Q . PV %s  (then one coqc per correspondence shard under build/%s)" % (mod.PROPS[:-2] + ".vo", mod.PROPS, pid),
                            "trusted_base": trusted_base(mod, pr),
-                           "axioms": pr.get("axioms", []),
+                           "axioms": pr.get("axioms", []), "coqchk": pr.get("coqchk"),
                            "evaluations": len(cases), "evaluated_in_coq": len(items),
                            "distinct_nontrivial": nontriv, "distinct": len(seen),
                            "rule": getattr(mod, "RULE", ""), "samples": json.loads(canon(samples))[:2],
